@@ -94,9 +94,9 @@ Definition sx_message (m : message) : sx :=
   Li [sx_opt Bs (m_ssid m); Bs (m_from m); Bs (m_to m); Bs (m_protocol m); sx_N (m_round m);
       sx_opt Bs (m_data m); sx_bool (m_bcast m); sx_opt Bs (m_bv m)].
 
-(* "cbor.message_encode": (ssid? from to protocol round data? broadcast bv?) -> (#bytes wf) *)
+(* "cbor.message_encode": (ssid? from to protocol round data? broadcast bv?) -> (#bytes real_message) *)
 Definition op_cbor_message_encode (arg : sx) : option sx :=
-  do m <- as_message arg; Some (Li [Bs (message_encode m); sx_bool (wf_message m)]).
+  do m <- as_message arg; Some (Li [Bs (message_encode m); sx_bool (real_message m)]).
 
 (* "cbor.message_decode": #bytes -> () | (message)      (into a fresh Message) *)
 Definition op_cbor_message_decode (arg : sx) : option sx :=
@@ -172,6 +172,41 @@ Definition sx_frost (c : frost_config) : sx :=
 Definition op_cbor_frost_unmarshal (arg : sx) : option sx :=
   match arg with Bs b => Some (sx_outcome sx_frost (frost_unmarshal b)) | _ => None end.
 
+(* "cbor.frost_unmarshal_v0": the code before the validating UnmarshalCBOR *)
+Definition op_cbor_frost_unmarshal_v0 (arg : sx) : option sx :=
+  match arg with Bs b => Some (sx_outcome sx_frost (frost_unmarshal_v0 b)) | _ => None end.
+
+Definition sx_shares (l : list (bytes * point)) : sx :=
+  sx_list (fun e : bytes * point => Li [Bs (fst e); sx_pt (snd e)]) l.
+
+Definition sx_taproot (c : taproot_config) : sx :=
+  Li [Bs (t_id c); At (t_threshold c); sx_opt At (t_share c); sx_opt Bs (t_public c); sx_opt Bs (t_chain c);
+      sx_shares (t_shares c)].
+(* "cbor.taproot_unmarshal": #bytes -> outcome config *)
+Definition op_cbor_taproot_unmarshal (arg : sx) : option sx :=
+  match arg with Bs b => Some (sx_outcome sx_taproot (taproot_unmarshal b)) | _ => None end.
+
+Definition sx_doerner (c : doerner_config) : sx :=
+  Li [sx_opt Bs (d_setup c); At (d_share c); sx_pt (d_public c); sx_opt Bs (d_chain c)].
+(* "cbor.doerner_unmarshal": (setup-length #bytes) -> outcome config     (4096 receiver, 2064 sender) *)
+Definition op_cbor_doerner_unmarshal (arg : sx) : option sx :=
+  match arg with
+  | Li [n; Bs b] => do n <- as_nat n; Some (sx_outcome sx_doerner (doerner_unmarshal n b))
+  | _ => None end.
+
+(* "cbor.signature_unmarshal": #bytes -> outcome (R s) *)
+Definition op_cbor_signature_unmarshal (arg : sx) : option sx :=
+  match arg with
+  | Bs b => Some (sx_outcome (fun sg : point * Z => Li [sx_pt (fst sg); At (snd sg)]) (signature_unmarshal b))
+  | _ => None end.
+
+Definition sx_presig (p : presig) : sx :=
+  Li [sx_opt Bs (ps_id p); sx_pt (ps_R p); sx_opt sx_shares (ps_RBar p); sx_opt sx_shares (ps_S p);
+      At (ps_k p); At (ps_chi p)].
+(* "cbor.presig_unmarshal": #bytes -> outcome presignature *)
+Definition op_cbor_presig_unmarshal (arg : sx) : option sx :=
+  match arg with Bs b => Some (sx_outcome sx_presig (presig_unmarshal b)) | _ => None end.
+
 Definition op_cbor_utf8_valid (arg : sx) : option sx :=
   match arg with Bs b => Some (sx_bool (utf8_valid b)) | _ => None end.
 
@@ -192,4 +227,9 @@ Definition cbor_ops : list (bytes * (sx -> option sx)) :=
     (cstr "cbor.validate_prime", op_cbor_validate_prime);
     (cstr "cbor.validate_prime_v0", fun arg => match arg with At p => Some (sx_bool (validate_prime_v0 mr_prime (Some p))) | _ => None end);
     (cstr "cbor.frost_unmarshal", op_cbor_frost_unmarshal);
+    (cstr "cbor.frost_unmarshal_v0", op_cbor_frost_unmarshal_v0);
+    (cstr "cbor.taproot_unmarshal", op_cbor_taproot_unmarshal);
+    (cstr "cbor.doerner_unmarshal", op_cbor_doerner_unmarshal);
+    (cstr "cbor.signature_unmarshal", op_cbor_signature_unmarshal);
+    (cstr "cbor.presig_unmarshal", op_cbor_presig_unmarshal);
     (cstr "cbor.utf8_valid", op_cbor_utf8_valid) ].
